@@ -38,6 +38,8 @@ func c15Specs() []c15Spec {
 		{ID: "F4-v2-closed-from-outside", Trouble: "closer", Kind: "v2", Dispatch: 3, Bound: [2]int{2, 3}},
 		{ID: "F5-v1-double-close", Trouble: "double-close", Kind: "v1", Dispatch: 2, Bound: [2]int{2, 3}},
 		{ID: "F6-v2-never-reads-101-dispatches", Trouble: "never-reads", Kind: "v2", Dispatch: 101, Bound: [2]int{0, 0}},
+		{ID: "F7-v1-overflow-while-op-queue-full", Trouble: "overflow-full-opqueue", Kind: "v1", Dispatch: 100, Bound: [2]int{0, 1}},
+		{ID: "F7-v2-overflow-while-op-queue-full", Trouble: "overflow-full-opqueue", Kind: "v2", Dispatch: 100, Bound: [2]int{0, 1}},
 	}
 }
 
@@ -46,12 +48,22 @@ type lockedMock struct {
 	got    []string
 	failAt int // return an error on the n-th Receive (1-based), 0 = never
 	calls  int
+	// gateAt: the n-th Receive blocks until gate is closed (holds the hub inside a broadcast)
+	gateAt  int
+	gate    chan struct{}
+	entered chan struct{}
 }
 
 func (m *lockedMock) Receive(msg event.MessageMetadata) error {
 	m.mu.Lock()
 	defer m.mu.Unlock()
 	m.calls++
+	if m.gateAt > 0 && m.calls == m.gateAt {
+		m.mu.Unlock()
+		close(m.entered)
+		<-m.gate
+		m.mu.Lock()
+	}
 	if m.failAt > 0 && m.calls >= m.failAt {
 		return errors.New("listener failed")
 	}
@@ -86,6 +98,10 @@ func c15SchedScenario(c *fw.Ctx, sp c15Spec) schedScenario {
 				init := func() {
 					// join order H1, troublemaker, H2 (map iteration is pinned to slot order, so
 					// the troublemaker sits between the two healthy listeners in every broadcast)
+					if sp.Trouble == "overflow-full-opqueue" {
+						// h1 holds the hub inside the broadcast of event 101 until the op queue is full
+						h1.gateAt, h1.gate, h1.entered = sp.Dispatch+1, make(chan struct{}), make(chan struct{})
+					}
 					hub.AddListener(h1)
 					switch sp.Trouble {
 					case "mock-error":
@@ -104,6 +120,18 @@ func c15SchedScenario(c *fw.Ctx, sp c15Spec) schedScenario {
 					defer close(t1done)
 					for i := 1; i <= sp.Dispatch; i++ {
 						hub.Dispatch(event.MessageMetadata{Mailbox: "a", ID: fmt.Sprint(i)})
+					}
+					if sp.Trouble == "overflow-full-opqueue" {
+						// the slow listener's queue is now full (it never reads).  Event 101 parks the
+						// hub inside h1; meanwhile 100 more operations fill the hub's own queue; then
+						// the hub goes on to the slow listener, which overflows.
+						hub.Sync()
+						hub.Dispatch(event.MessageMetadata{Mailbox: "a", ID: fmt.Sprint(sp.Dispatch + 1)})
+						<-h1.entered
+						for i := 0; i < 100; i++ {
+							hub.Dispatch(event.MessageMetadata{Mailbox: "a", ID: fmt.Sprintf("q%d", i)})
+						}
+						close(h1.gate)
 					}
 					hub.Sync()
 				}
@@ -127,7 +155,7 @@ func c15SchedScenario(c *fw.Ctx, sp c15Spec) schedScenario {
 				late := func() {
 					<-t1done
 					<-t2done
-					if sp.Trouble == "never-reads" {
+					if sp.Trouble == "never-reads" || sp.Trouble == "overflow-full-opqueue" {
 						return
 					}
 					hub.Sync()
@@ -159,9 +187,12 @@ func c15SchedScenario(c *fw.Ctx, sp c15Spec) schedScenario {
 				cleanup := func() {
 					cancel()
 					if realL != nil {
-						func() {
+						// in its own goroutine: with a hub that is stuck, Close may block for ever,
+						// and the scheduler's own goroutine must never block
+						l := realL
+						go func() {
 							defer func() { _ = recover() }()
-							realL.Close()
+							l.Close()
 						}()
 					}
 				}
@@ -195,7 +226,12 @@ func c15SchedScenario(c *fw.Ctx, sp c15Spec) schedScenario {
 		for i := 1; i <= sp.Dispatch; i++ {
 			want = append(want, fmt.Sprintf("a/%d", i))
 		}
-		if sp.Trouble != "never-reads" {
+		if sp.Trouble == "overflow-full-opqueue" {
+			want = append(want, fmt.Sprintf("a/%d", sp.Dispatch+1))
+			for i := 0; i < 100; i++ {
+				want = append(want, fmt.Sprintf("a/q%d", i))
+			}
+		} else if sp.Trouble != "never-reads" {
 			want = append(want, "a/late")
 		}
 		w := strings.Join(want, " ")
